@@ -13,6 +13,7 @@ import (
 	"github.com/hujm2023/go-sms-protocol/datacoding"
 	gsm7 "github.com/hujm2023/go-sms-protocol/datacoding/gsm7encoding"
 	"github.com/hujm2023/go-sms-protocol/logger"
+	"github.com/hujm2023/go-sms-protocol/verifhook"
 )
 
 // Protocol represents the enumeration values for supported protocol types.
@@ -108,6 +109,8 @@ func (b *BatchDataCodingEncoder) Build(ctx context.Context) (contents [][]byte, 
 		encoder := newBatchEncoder(b.protocol, msgFmt, b.content, b.frameKey, datacoding.IsValidProtoDataCoding(b.originDataCoding) && msgFmt == b.originDataCoding)
 		encoders = append(encoders, encoder)
 		eg.Go(func() error {
+			verifhook.Yield("batch.run.enter")
+			defer verifhook.Yield("batch.run.exit")
 			encoder.Run(ctx)
 			return nil
 		})
